@@ -28,6 +28,17 @@ pub enum PI {
     Pop { r: u8 },
     Syscall,
     Cld,
+    /// mov [rsp+d], r64
+    StoreRsp { d: i8, r: u8 },
+    /// mov r64, [rsp+d]
+    LoadRsp { d: i8, r: u8 },
+    /// lea r64, [rsp+d]
+    LeaRsp { d: i8, r: u8 },
+    /// add rsp, imm8
+    AddRsp { imm: i8 },
+    PushImm { imm: i32 },
+    Push16 { r: u8 },
+    Pop16 { r: u8 },
 }
 
 pub const JCC32: [Code; 16] = [
@@ -169,6 +180,27 @@ pub fn assemble(prog: &[PI], base: u64) -> Vec<u8> {
             }
             PI::Syscall => b.extend_from_slice(&[0x0f, 0x05]),
             PI::Cld => b.push(0xfc),
+            PI::StoreRsp { d, r: k } => {
+                enc1(Instruction::with2(Code::Mov_rm64_r64, iced_x86::MemoryOperand::with_base_displ(Register::RSP, *d as i64), r(k)).unwrap(), ip, &mut b);
+            }
+            PI::LoadRsp { d, r: k } => {
+                enc1(Instruction::with2(Code::Mov_r64_rm64, r(k), iced_x86::MemoryOperand::with_base_displ(Register::RSP, *d as i64)).unwrap(), ip, &mut b);
+            }
+            PI::LeaRsp { d, r: k } => {
+                enc1(Instruction::with2(Code::Lea_r64_m, r(k), iced_x86::MemoryOperand::with_base_displ(Register::RSP, *d as i64)).unwrap(), ip, &mut b);
+            }
+            PI::AddRsp { imm } => {
+                enc1(Instruction::with2(Code::Add_rm64_imm8, Register::RSP, *imm as i32).unwrap(), ip, &mut b);
+            }
+            PI::PushImm { imm } => {
+                enc1(Instruction::with1(Code::Pushq_imm32, *imm).unwrap(), ip, &mut b);
+            }
+            PI::Push16 { r: k } => {
+                enc1(Instruction::with1(Code::Push_r16, Register::AX + (r(k).number() as u32)).unwrap(), ip, &mut b);
+            }
+            PI::Pop16 { r: k } => {
+                enc1(Instruction::with1(Code::Pop_r16, Register::AX + (r(k).number() as u32)).unwrap(), ip, &mut b);
+            }
         }
         assert!(b.len() <= SLOT as usize, "slot overflow: {:?}", pi);
         b.resize(SLOT as usize, 0x90);
@@ -180,8 +212,10 @@ pub fn assemble(prog: &[PI], base: u64) -> Vec<u8> {
 #[derive(Clone, Debug)]
 pub struct ProgOpts {
     pub max_len: u64,
-    /// weights: nop, movimm, alu, aluimm, incdec, jcc, jmp, jmpreg, jrcxz, call, callreg, ret, push, pop, syscall, cld
+    /// weights: nop, movimm, alu, aluimm, incdec, jcc, jmp, jmpreg, jrcxz, call, callreg, ret, push, pop, syscall, cld,
+    /// then (stack programs only) storersp, loadrsp, learsp, addrsp, pushimm, push16, pop16
     pub w: [u32; 16],
+    pub w_stack: [u32; 7],
     /// allow branch targets at the end address / past it
     pub end_targets: bool,
     /// allow backward branches
@@ -190,16 +224,22 @@ pub struct ProgOpts {
 
 impl ProgOpts {
     pub fn straight() -> ProgOpts {
-        ProgOpts { max_len: 30, w: [8, 12, 12, 8, 6, 10, 6, 3, 2, 5, 2, 3, 3, 3, 0, 1], end_targets: true, backward: true }
+        ProgOpts { max_len: 30, w: [8, 12, 12, 8, 6, 10, 6, 3, 2, 5, 2, 3, 3, 3, 0, 1], w_stack: [0; 7], end_targets: true, backward: true }
+    }
+    /// stack-centred programs for C04: pushes/pops/calls/returns mixed with RSP-relative accesses
+    pub fn stacky() -> ProgOpts {
+        ProgOpts { max_len: 14, w: [2, 6, 3, 2, 1, 3, 2, 1, 0, 10, 4, 10, 14, 14, 0, 0], w_stack: [10, 10, 3, 5, 4, 3, 3], end_targets: false, backward: false }
     }
     pub fn branchy() -> ProgOpts {
-        ProgOpts { max_len: 28, w: [3, 5, 8, 6, 3, 22, 10, 6, 3, 12, 6, 12, 1, 1, 0, 0], end_targets: true, backward: true }
+        ProgOpts { max_len: 28, w: [3, 5, 8, 6, 3, 22, 10, 6, 3, 12, 6, 12, 1, 1, 0, 0], w_stack: [0; 7], end_targets: true, backward: true }
     }
 }
 
 /// Generate a program from one tape row per slot (rows[0] is the header row and is skipped by callers).
 pub fn gen_slot(t: &mut Tape, i: usize, n: usize, o: &ProgOpts) -> PI {
-    let kind = t.weighted(&o.w);
+    let mut w: Vec<u32> = o.w.to_vec();
+    w.extend_from_slice(&o.w_stack);
+    let kind = t.weighted(&w);
     let reg = |t: &mut Tape| t.below(REGS.len() as u64) as u8;
     let target = |t: &mut Tape| -> usize {
         // mostly forward and near, sometimes backward, sometimes the end / past it
@@ -228,7 +268,14 @@ pub fn gen_slot(t: &mut Tape, i: usize, n: usize, o: &ProgOpts) -> PI {
         12 => PI::Push { r: reg(t) },
         13 => PI::Pop { r: reg(t) },
         14 => PI::Syscall,
-        _ => PI::Cld,
+        15 => PI::Cld,
+        16 => PI::StoreRsp { d: (8 * (t.below(9) as i64 - 2)) as i8, r: reg(t) },
+        17 => PI::LoadRsp { d: (8 * (t.below(9) as i64 - 2)) as i8, r: reg(t) },
+        18 => PI::LeaRsp { d: t.raw() as i8, r: reg(t) },
+        19 => PI::AddRsp { imm: (8 * (t.below(7) as i64 - 3)) as i8 },
+        20 => PI::PushImm { imm: t.val64() as i32 },
+        21 => PI::Push16 { r: reg(t) },
+        _ => PI::Pop16 { r: reg(t) },
     }
 }
 
